@@ -143,10 +143,12 @@ def gen_assembly(rng, enz, nmods):
 
 
 # ---------------------------------------------------------------- feature tables
-def gen_part(rng, n, shape=None):
-    shape = shape or rng.choice(["simple", "simple", "simple", "edge", "over", "neg", "whole"])
+def gen_part(rng, n, shape=None, sites=False):
+    shape = shape or rng.choice(["simple", "simple", "simple", "edge", "over", "neg", "whole"] + (["site"] if sites else []))
     st = rng.choice([1, -1, 0])
-    if shape == "simple" or n < 2:
+    if shape == "site":        # a zero-width location: the GenBank between-bases site `p^p+1` (a cut site)
+        s = e = rng.randint(0, n)
+    elif shape == "simple" or n < 2:
         s = rng.randrange(0, n)
         e = rng.randint(s + 1, n)
     elif shape == "edge":
@@ -163,10 +165,10 @@ def gen_part(rng, n, shape=None):
     return (s, e, st)
 
 
-def gen_feature(rng, n, allow_cites=0):
+def gen_feature(rng, n, allow_cites=0, sites=False):
     r = rng.random()
     if r < 0.65:
-        parts = (gen_part(rng, n),)
+        parts = (gen_part(rng, n, sites=sites),)
     elif r < 0.8 and n >= 3:   # origin-spanning join, GenBank style
         a = rng.randrange(1, n)
         b = rng.randint(1, a)
@@ -186,9 +188,9 @@ def gen_feature(rng, n, allow_cites=0):
     return Feat(ftype, "u{}".format(rng.randrange(0, 50)), cites, parts)
 
 
-def gen_features(rng, n, count=None, allow_cites=0):
+def gen_features(rng, n, count=None, allow_cites=0, sites=False):
     count = rng.choice([0, 1, 2, 3, 5, 8]) if count is None else count
-    return [gen_feature(rng, n, allow_cites) for _ in range(count)]
+    return [gen_feature(rng, n, allow_cites, sites=sites) for _ in range(count)]
 
 
 def features_inside(rng, lo, hi, count, n, allow_cites=0):
